@@ -21,6 +21,7 @@ def goPrec : Expr → Nat
   | .unary .. => 10
   | .incr pre _ _ => if pre then 12 else 13
   | .field _ => 14
+  | .namedField _ => 14
   | .group _ => 16
   | _ => 15
 
@@ -44,6 +45,7 @@ def showE : Expr → List Tok
     if pre then (if dec then Tok.decr else Tok.incr) :: parenT e (.incr pre dec e) (showE e)
     else parenT e (.incr pre dec e) (showE e) ++ [if dec then Tok.decr else Tok.incr]
   | .field e => .dollar :: parenT e (.field e) (showE e)
+  | .namedField e => .at :: parenT e (.namedField e) (showE e)
   | .index a i => .name a :: .lbracket :: showE i ++ [.rbracket]
   | .getline cmd target file =>
     (if cmd = .none then [] else parenT cmd (.getline cmd target file) (showE cmd) ++ [.pipe]) ++ .getline :: showE target ++
@@ -67,6 +69,7 @@ def addShow : Expr → Expr
   | .inArr e a => .inArr (pg 4 e (addShow e)) a
   | .incr pre dec e => .incr pre dec (pg (if pre then 12 else 13) e (addShow e))
   | .field e => .field (pg 14 e (addShow e))
+  | .namedField e => .namedField (pg 14 e (addShow e))
   | .index a i => .index a (addShow i)
   | .getline c t f => .getline (pgOpt 15 c (addShow c)) (addShow t) (pgOpt 15 f (addShow f))
   | e => e
